@@ -32,6 +32,8 @@ ReadDiag(c, tr, got, scaled) ==
   ELSE IF scaled /\ (\E s \in 1..Len(c.tr) : got.vars[s].units # tr.tableunits[s]) THEN "unit is not the one of the tracer table"
   ELSE IF got.tau0 # [t \in 1..c.nt |-> Tau0(c, t)] THEN "tau0 (time bounds)"
   ELSE IF got.tau1 # [t \in 1..c.nt |-> Tau0(c, t) + 24] THEN "tau1 (time bounds)"
+  \* the time_bounds variable, when the reader defines it: row t = [tau0[t], tau1[t]]
+  ELSE IF Len(got.tb) > 0 /\ got.tb # [t \in 1..c.nt |-> <<Tau0(c, t), Tau0(c, t) + 24>>] THEN "time_bounds rows are not [tau0, tau1] of each block"
   ELSE ""
 
 \* ReadDiag restricted to the first nsteps blocks (truncation scans)
